@@ -1,7 +1,7 @@
 #!/usr/bin/env python3
 """Copies confirmed seeded changes from /tmp/seed into /verif/seeded/<id>/ with meta.json."""
 import json, os, shutil, sys, re
-SRC='/tmp/seed'; DST='/verif/seeded'
+SRC=os.environ.get('SEEDROOT','/tmp/seed'); DST='/verif/seeded'; BASE=os.environ.get('BASE','cf8b87f'); OFFSET=int(os.environ.get('SEED_OFFSET','0'))
 os.makedirs(DST, exist_ok=True)
 for d in sorted(os.listdir(SRC)):
     if not d.startswith('out_C'): continue
@@ -15,16 +15,16 @@ for d in sorted(os.listdir(SRC)):
         ok=c.get('applies') and c.get('suite_passes_with_change') and c.get('demo_fails_with_change') and c.get('demo_passes_without_change')
         if not ok:
             print('NOT CONFIRMED', pid, n, c); continue
-        out=f'{DST}/{pid}-{n}'; os.makedirs(out, exist_ok=True)
+        n+=OFFSET; out=f'{DST}/{pid}-{n}'; os.makedirs(out, exist_ok=True)
         shutil.copy(patch, f'{out}/patch.diff'); shutil.copy(demo, f'{out}/demo.rs')
         files=sorted(set(re.findall(r'^\+\+\+ b/(\S+)', open(patch).read(), re.M)))
         meta_path=f'{out}/meta.json'
         old=json.load(open(meta_path)) if os.path.exists(meta_path) else {}
         meta={
-          'property': pid, 'seed': f'{pid}-{n}', 'origin': 'independent sub-agent given only the property text and a scratch worktree of the pinned commit cf8b87f',
+          'property': pid, 'seed': f'{pid}-{n}', 'origin': f'independent sub-agent given only the property text and a scratch worktree of commit {BASE}',
           'files_changed': files,
           'demo': {'crate': c['crate'], 'how': f"copy demo.rs to {c['crate']}/tests/seed_demo.rs; cargo test --offline -p {c['crate']}" + (' --all-features' if c['crate']=='tera-contrib' else '') + ' --test seed_demo'},
-          'confirmed': {'base_commit': 'cf8b87f', 'applies_and_compiles': True, 'existing_suite_passes_with_change': True, 'suite_tests_ok_lines': c.get('suite_tests_ok'), 'demo_fails_with_change': True, 'demo_passes_without_change': True, 'how': 'tools/confirm_seed.sh in a scratch worktree outside /repo and /verif (removed afterwards)'},
+          'confirmed': {'base_commit': BASE, 'applies_and_compiles': True, 'existing_suite_passes_with_change': True, 'suite_tests_ok_lines': c.get('suite_tests_ok'), 'demo_fails_with_change': True, 'demo_passes_without_change': True, 'how': 'tools/confirm_seed.sh in a scratch worktree outside /repo and /verif (removed afterwards)'},
           'agent_notes': notes,
           'detected_by': old.get('detected_by', None),
         }
